@@ -563,10 +563,16 @@ func New(h host.Host, options ...Option) (_ *IpfsDHT, err error)
   ghostvar $torn bool = false
   modifies *
   ensures [error-tears-down-what-was-started] imp(err != nil && $made, $torn)
+  ensures [a-dht-or-an-error] imp(err == nil, result0 != nil)
+  # dhtcfg.Defaults (always applied first) installs a message-sender builder; no option clears it: ASSUMED
+  ghost at call(Validate): assume(cfg.MsgSenderBuilder != nil)
   ghost at call(makeDHT): $made = ($ret1 == nil)
   ghost at call(Close): $torn = true
+# (not verified: ASSUMED that makeDHT returns a DHT exactly when it returns no error)
 func makeDHT(h host.Host, cfg dhtcfg.Config) (*IpfsDHT, error)
   constructor
+  modifies *
+  ensures imp(result1 == nil, result0 != nil)
 
 # C14: Close cancels the DHT's context first, waits for every goroutine of its
 # wait group, then closes the refresh manager and each store that exists -
